@@ -10,8 +10,8 @@ from pyvc.contract import Contract, Loop, Lemma
 XW = 'src/TotalDepth/util/XmlWrite.py'
 OUT = KRec('TextIO', writes=Int)
 XS = KRec('XmlStream', _file=OUT, _fileClose=False, _enc='utf-8', _elemStk=KView(Int), _inElem=Bool, _canIndentStk=KView(Bool))
-ASSUMPTIONS = ['element names are compared for equality only (modelled as integer ids); startElement is verified for an empty attribute dict '
-               '(attribute values go through _encode, decided by the code-point enumeration)',
+ASSUMPTIONS = ['element names are compared for equality only (modelled as integer ids); startElement is verified for an empty attribute dict and for a dict of two concrete keys with arbitrary text values '
+               '(attribute values go through _encode, decided by the code-point enumeration; the text written is not under contract)',
                'the output file is abstracted to its number of write calls: WHAT characters/literal/comment/pI/_indent write is not under contract '
                '(whole documents: bounded stand-in); text repeated a symbolic number of times (INDENT_STR * depth) is an arbitrary string of the right length']
 
@@ -57,6 +57,18 @@ def register(reg):
                      ensures=[STK, 'not self._canIndentStk[len(self._canIndentStk) - 1]',
                               'forall(0, len(self._canIndentStk) - 1, lambda i: self._canIndentStk[i] == old(self._canIndentStk)[i])'],
                      canaries=['self._canIndentStk[len(self._canIndentStk) - 1]'], crosscheck=False))
+    # startElement with attributes: two attributes with arbitrary text values (keys concrete, as at every call site of the writers);
+    # the loop over the sorted keys is executed key by key from the real body; the stack discipline is the same as without attributes
+    import z3 as _z3
+    reg.add(Contract(XW, 'XmlStream.startElement', {'self': XS, 'name': Int, 'attrs': {'stride': _z3.String('attr_value_stride'), 'datum': _z3.String('attr_value_datum')}},
+                     name='XmlStream.startElement[two attributes]', requires=[STK],
+                     modifies=['self._inElem', 'self._file.writes', 'self._elemStk', 'self._canIndentStk'],
+                     ensures=[STK, 'self._inElem', 'len(self._elemStk) == len(old(self._elemStk)) + 1', 'self._elemStk[len(self._elemStk) - 1] == name',
+                              'forall(0, len(old(self._elemStk)), lambda i: self._elemStk[i] == old(self._elemStk)[i])',
+                              # one write for the tag and one per attribute, after the pending tag is closed and the indentation written
+                              'self._file.writes >= old(self._file.writes) + 3'],
+                     loops=[Loop('for k in kS', unroll=True)],
+                     canaries=['len(self._elemStk) == 1'], crosscheck=False), callable_=False)
     reg.add(Contract(XW, 'XmlStream.endElement', {'self': XS, 'name': Int}, requires=[STK],
                      modifies=['self._inElem', 'self._file.writes', 'self._elemStk', 'self._canIndentStk'],
                      # a close that does not match the innermost open element is refused
